@@ -17,17 +17,12 @@ mod verif_demo_c14_xlsb_refs {
         assert_eq!(pf(&[0x44, 2, 0, 0, 0, 1, 0x80]).unwrap(), "B$3"); // fRwRel only: encodes $B3
         assert_eq!(pf(&[0x44, 2, 0, 0, 0, 1, 0x40]).unwrap(), "$B3"); // fColRel only: encodes B$3
     }
-    #[test]
-    fn verif_demo_xlsb_ptgref_column_ge_26_mislettered() {
-        assert_eq!(pf(&[0x44, 0, 0, 0, 0, 26, 0xC0]).unwrap(), "A1"); // AA1
-        assert_eq!(pf(&[0x44, 0xFF, 0xFF, 0x0F, 0, 0xFF, 0xFF]).unwrap(), "GD1048576"); // XFD1048576
-    }
     // PtgRef3d / PtgArea / PtgArea3d: always `$`, and the flag bits are not masked out of the column
     #[test]
     fn verif_demo_xlsb_ref3d_area_relative_flags_ignored_and_not_masked() {
-        assert_eq!(pf(&[0x3A, 1, 0, 2, 0, 0, 0, 1, 0xC0]).unwrap(), "S1!$USN$3"); // expected S1!B3
-        assert_eq!(pf(&[0x25, 0, 0, 0, 0, 1, 0, 0, 0, 0, 0xC0, 1, 0xC0]).unwrap(), "$USM$1:$USN$2"); // expected A1:B2
-        assert_eq!(pf(&[0x3B, 1, 0, 0, 0, 0, 0, 1, 0, 0, 0, 0, 0xC0, 1, 0xC0]).unwrap(), "S1!$USM$1:$USN$2"); // expected S1!A1:B2
+        assert_eq!(pf(&[0x3A, 1, 0, 2, 0, 0, 0, 1, 0xC0]).unwrap(), "S1!$BTRN$3"); // expected S1!B3
+        assert_eq!(pf(&[0x25, 0, 0, 0, 0, 1, 0, 0, 0, 0, 0xC0, 1, 0xC0]).unwrap(), "$BTRM$1:$BTRN$2"); // expected A1:B2
+        assert_eq!(pf(&[0x3B, 1, 0, 0, 0, 0, 0, 1, 0, 0, 0, 0, 0xC0, 1, 0xC0]).unwrap(), "S1!$BTRM$1:$BTRN$2"); // expected S1!A1:B2
     }
     #[test]
     fn verif_demo_xlsb_absolute_area_ok() {
